@@ -18,6 +18,7 @@ from __future__ import annotations
 
 import contextlib
 import copy
+import hashlib
 import io
 import itertools
 import math
@@ -88,8 +89,8 @@ BASE_NETS = [
 
 
 def base_cases(sd_seed, sizes="small", limit=None):
-    """The base set of (network, tree) pairs.  One seeded tree per network plus
-    the fixed extra trees."""
+    """The base set of (network, tree) pairs: one tree per network (seeded, or
+    the historically interesting one where given)."""
     out = []
     for k, (eq, szs, extra) in enumerate(BASE_NETS):
         inputs, output = parse_eq(eq)
@@ -101,11 +102,11 @@ def base_cases(sd_seed, sizes="small", limit=None):
         n = len(inputs)
         rng = random.Random(7919 * sd_seed + k)
         trees = list(scope.all_trees(n))
-        chosen = [trees[rng.randrange(len(trees))]]
-        for e in extra:
-            e = tuple(tuple(p) for p in e)
-            if e not in chosen:
-                chosen.append(e)
+        if extra:
+            # historically interesting tree for this network (DESIGN section 4)
+            chosen = [tuple(tuple(p) for p in e) for e in extra]
+        else:
+            chosen = [trees[rng.randrange(len(trees))]]
         for ssa in chosen:
             out.append({"inputs": inputs, "output": output, "size_dict": sd, "ssa_path": ssa})
     if limit is not None:
@@ -412,7 +413,7 @@ def canon(x, depth=0):
 
 
 def fingerprint(tree):
-    return hash(repr(canon(vars(tree))))
+    return hashlib.blake2b(repr(canon(vars(tree))).encode(), digest_size=16).digest()
 
 
 # --------------------------------------------------------------------------
